@@ -57,7 +57,7 @@ import (
 const (
 	c03MaxInput    = 65507
 	c03ObserveMax  = 4096
-	c03HangAfter   = 2 * time.Second
+	c03HangAfter   = 6 * time.Second
 	c03Workers     = 8
 	c03ObsLimit    = 6000 // observer calls per accepted input
 	c03PerClassMax = 3    // failures reported per class (all are counted)
